@@ -69,7 +69,7 @@ def check(tier):
             fault = r[2]
             sig = {"what": "literal", "fault": fault.split(":")[0], "dialect": fault.split(":")[1] if ":" in fault else "sqlite",
                    "has_backslash": 92 in val, "has_quote": 39 in val, "has_backslash_quote": any(val[i] == 92 and val[i + 1] == 39 for i in range(len(val) - 1)), "has_two_quotes": any(val[i] == 39 and val[i + 1] == 39 for i in range(len(val) - 1)),
-                   "src": e["spelling"]}
+                   "src": e["spelling"], "sql": next((x.get("sql") or "" for x in e["dialects"] if x["d"] == (fault.split(":")[1] if ":" in fault else "sqlite")), "")}
             rep.violation({"property": "C08", "kind": fault, "literal": e["spelling"], "expected_code_points": val,
                            "sqlite": e["sqlite"], "failing": [x for x in e["dialects"] if x["d"] == sig["dialect"]][:1]}, sig)
     # ---- numeric literals (spec/Number.tla) ----
